@@ -258,6 +258,9 @@ func loadSites(path string) {
 
 func Worker(t *testing.T, a WorkerArgs) {
 	loadSites(a.Sites)
+	// process-wide one-time registrations happen before the first run and outside any simulation, so that
+	// the first run of a process (e.g. a replay) takes exactly the same steps as a run later in a batch
+	ensureImport()
 	if a.Replay != "" {
 		replay(t, a)
 		return
